@@ -14,7 +14,8 @@ LEVEL_TEXT = ("Theorems in Coq (Props/C12.v) over a model of addition, Rightshif
               "commutativity of the field multiplication proved by additivity + a complete 128x128 basis sweep); GHASH is the standard's over "
               "A||0||C||0||[len A]_64||[len C]_64 with bit lengths; J0 for 96-bit and all other IV lengths; the counter is inc32 (low 32 bits, "
               "wrap); the loops are GCTR; Sm4GCM/GCMEncrypt return GCM-AE's (C,T) and Sm4GCM/GCMDecrypt return GCTR(C) and GCM-AD's recomputed tag "
-              "for every 16-byte key, IV of any length, A and P; decrypt(encrypt) returns P and the same tag; the returned tag is "
+              "for every 16-byte key, IV of any length, A and P; any history of calls returns for each call the specification's value on the values "
+              "at call time (nothing is carried between calls); decrypt(encrypt) returns P and the same tag; the returned tag is "
               "E(K,J0) xor GHASH_H(A,C), two tags under one key/IV agree iff the GHASH values agree, GHASH is additive and a difference confined to one "
               "block Delta leaves the tag unchanged iff Delta.H^(k+1) = 0. The model is run (extracted, block "
               "cipher = SM4Spec) against /repo and /repo against crypto/cipher's GCM over sm4.NewCipher (the TLS suites' computation).")
@@ -42,7 +43,9 @@ RULE = ("seeded generator (VERIF_SEED): RFC 8998 A.1; IV lengths 1..64 (random /
         "(GF(2^128) inversion in the driver) so that J0 ends in fffffffc..ffffffff and the 32-bit counter wraps inside the message; messages up to "
         "4 KiB (thorough 64 KiB); IV, A, P (and C for decryption) placed in front of 0..40 canary bytes in their backing arrays; key lengths "
         "0..32; every single-bit change of IV, A, C and T for 3 (thorough 12) messages plus truncation/extension and a key bit: the recomputed "
-        "tag must differ from T. Every case is encrypted and decrypted, through Sm4GCM and through GCMEncrypt/GCMDecrypt. Non-trivial: all; "
+        "tag must differ from T; histories of 2..4 calls (Sm4GCM enc/dec, GCMEncrypt, GCMDecrypt, GetH mixed) on ONE backing array per argument, the "
+        "next call's values written in place (key bit flipped / key replaced, IV counted up, data reused), each result checked against the "
+        "values at call time. Every case is encrypted and decrypted, through Sm4GCM and through GCMEncrypt/GCMDecrypt. Non-trivial: all; "
         "distinct = distinct case text")
 
 _spec = importlib.util.spec_from_file_location("checks._c05_sm4", os.path.join(os.path.dirname(os.path.abspath(__file__)), "c05.py"))
@@ -110,6 +113,8 @@ def classify(f, io):
         return f[0] + ":none"
     if f[0] == "G":
         return "G:iv%s:%s" % ("12" if len(_unhex(f[3])) == 12 else "x", io[0])
+    if f[0] == "Q":
+        return "Q:%d calls:%s" % (len(f[2].split(",")), io[0])
     return "V:%s:%s" % (f[7], io[0])
 
 
@@ -119,10 +124,23 @@ def same(f, io, mo):
     return io == mo
 
 
+def _hist_expected(call):
+    """what SP 800-38D gives for one call of a history, from the VALUES of that call alone"""
+    fn, key, iv, a, x = call.split(":")
+    key, iv, a, x = _unhex(key), _unhex(iv), _unhex(a), _unhex(x)
+    if fn == "H":
+        return sm4_block(key, bytes(16)).hex()
+    out, j0, h = py_gcm(key, iv, a, x)
+    c = out if fn in ("S1", "E") else x
+    t = py_tag(key, j0, h, a, c)
+    return (out.hex() or "-") + "/" + t.hex()
+
+
 def predicate(f, io):
     if not io or io[0] in ("PANIC", "HANG"):
         return False, "implementation " + (io[0] if io else "gave no result")
-    key, iv, a = _unhex(f[2]), _unhex(f[3]), _unhex(f[4])
+    if f[0] != "Q":
+        key, iv, a = _unhex(f[2]), _unhex(f[3]), _unhex(f[4])
     if f[0] == "G":
         p = _unhex(f[5])
         if len(key) != 16:
@@ -146,6 +164,20 @@ def predicate(f, io):
                 return False, "ciphertext differs from SP 800-38D GCM"
             if py_tag(key, j0, h, a, c) != t:
                 return False, "tag differs from SP 800-38D GCM"
+        return True, ""
+    if f[0] == "Q":
+        calls = f[2].split(",")
+        if io[0] != "ok" or len(io) != 3:
+            return False, "history: error for 16-byte keys"
+        outs = io[1].split(",")
+        if len(outs) != len(calls):
+            return False, "history: wrong number of results"
+        for i, (c, got) in enumerate(zip(calls, outs)):
+            if _hist_expected(c) != got:
+                return False, ("call %d of a history on reused buffers (%s) does not return the GCM value of its arguments at call time "
+                               "(the result depends on earlier calls)" % (i + 1, c.split(":")[0]))
+        if io[2] != "1":
+            return False, "history: a call wrote to the caller's key/IV/A/P buffers"
         return True, ""
     if f[0] == "V":
         c, t = _unhex(f[5]), _unhex(f[6])
